@@ -1,6 +1,7 @@
 /- Driver ops for C03 (masked PSF convolution). -/
 import Driver.Loop
 import Model.Convolution
+import Model.ConvolutionPipeline
 
 open Lean Model
 
@@ -51,12 +52,43 @@ def convSame : Op := fun j => do
   let K ← getKernel (← field j "kernel")
   let a ← getRats (← field j "image")
   if a.length ≠ h * w then throw "shape_mismatch"
-  match Spec.convSame h w K a with
+  -- Kernel2D.convolved_array_from on an unmasked Array2D (native = slim on the all-False mask)
+  match Impl.convolvedArrayFrom Spec.convSameFn K (Mask.allFalse h w) a with
   | none => throw "even_kernel"
-  | some r => pure (ratsToJson r)
+  | some r =>
+    match j.getObjVal? "gather_mask" with
+    | .error _ => pure (obj [("same", ratsToJson r)])
+    | .ok mj =>
+      let gm ← getMask mj
+      match Impl.convolvedArrayWithMaskFrom Spec.convSameFn K a gm with
+      | none => throw "even_kernel"
+      | some r2 => pure (obj [("same", ratsToJson r), ("same_masked", ratsToJson r2)])
+
+/-- {"op":"c03.simulate_fit","mask":…,"kernel":…,"image":[native…],"normalize_psf":b,
+     "background":"q","exposure":"q","subtract_background":b[,"pre_repair":b]}
+    → the composed SimulatorImaging → apply_mask → convolver → residual pipeline -/
+def simulateFit : Op := fun j => do
+  let m ← getMask (← field j "mask")
+  let K ← getKernel (← field j "kernel")
+  let a ← getRats (← field j "image")
+  let norm ← getBool (← field j "normalize_psf")
+  let bg ← getRat (fieldD j "background" (Json.str "0"))
+  let ex ← getRat (fieldD j "exposure" (Json.str "1"))
+  let sub ← getBool (fieldD j "subtract_background" (Json.bool true))
+  let pre ← getBool (fieldD j "pre_repair" (Json.bool false))
+  if a.length ≠ m.h * m.w then throw "shape_mismatch"
+  match Impl.simulateAndFitWith (!pre) Spec.convSameFn ex bg sub K norm (1 / 10 : Rat) m a with
+  | .error .evenKernel => throw "even_kernel"
+  | .error .padded => throw "padded"
+  | .error .footprintOutside => throw "footprint_outside"
+  | .ok o =>
+    pure (obj [("simulated", ratsToJson o.simulated), ("data", ratsToJson o.data),
+               ("psf", ratsToJson o.psf.vals), ("model", ratsToJson o.model),
+               ("residual", ratsToJson o.residual)])
 
 def ops : List (String × Op) :=
-  [("c03.convolve", convolve), ("c03.convolve_matrix", convolveMatrix), ("c03.conv_same", convSame)]
+  [("c03.convolve", convolve), ("c03.convolve_matrix", convolveMatrix), ("c03.conv_same", convSame),
+   ("c03.simulate_fit", simulateFit)]
 
 end Driver.C03
 
